@@ -281,6 +281,22 @@ func oracleC06(r *Result) ([]Violation, bool) {
 		if healed > tr {
 			tr = healed
 		}
+		// while a candidate still claims leadership (a leader whose own record lapsed
+		// because it is unhealthy or cut off from refreshing it, until its demotion) the
+		// group is not without a claimant, and a claimant does not try to acquire: the
+		// clock runs from the end of the last such claim inside the window
+		claiming := map[string]bool{}
+		for _, e := range r.Trace {
+			if e.K != "gauge" || e.T > winEnd {
+				continue
+			}
+			if isCand[e.I] {
+				if claiming[e.I] && !e.B && e.T >= v.t && e.T > tr {
+					tr = e.T
+				}
+				claiming[e.I] = e.B
+			}
+		}
 		lostWatch := false
 		for _, op := range r.Ops {
 			if !isCand[op.Inst] || !op.isStoreOp() {
